@@ -5,6 +5,7 @@ import AdfObdd.StableExact
 import AdfObdd.OpsProofs
 import AdfObdd.BioProofs
 import AdfObdd.HybridExample
+import AdfObdd.HybridCli
 /-! # C03 — enumerate-and-check stable semantics
 
 The code's test for a two-valued candidate `v`: restrict every condition by `v`'s false statements
@@ -228,7 +229,11 @@ rewriting), reduct / grounding / comparison on the own store.
 ASSUMPTION ABOUT THE EXTERNAL LIBRARY: `W : Bio.Lawful L n` as above (only the candidate
 generation uses the library). `hsame`: the biodivine object is the one the native object was
 instantiated from — position by position the same Boolean functions. Then the loop keeps the store
-well formed, only extends it, and the answers are exactly the stable models, each once. -/
+well formed, only extends it, and the answers are exactly the stable models, each once.
+NOTE: `hsame` is FALSE for the pairing the CLI's hybrid arm runs (pre-grounded native object, candidates
+from the un-grounded biodivine object: `hsame_fails_for_the_cli_pairing`); the theorem for that pairing
+is `native_rewriting_on_hybrid` below. This one covers a native object and a biodivine object built
+from the same conditions (`Adf::from_biodivine`, i.e. `hybrid_step_opt(false)`, or two `from_parser`s). -/
 theorem native_rewriting_exact {T : Type} (L : Bio.Lib T) (n : Nat) (W : Bio.Lawful L n)
     (s : Store) (ac : List Nat) (hw : WF s) (hn : ac.length = n) (hvs : ∀ t ∈ ac, t < s.nodes.size)
     (rw : Option T) (acB : List T) (hv : ∀ a ∈ acB, W.Valid a) (hnB : acB.length = n)
@@ -503,5 +508,190 @@ example (h : SM.Heu) (opt stable : Bool) :
   have st := (Bio.tt_stable Bio.exMutual Bio.exMutual_ok [some true, some false]).mp (by decide)
   exact ⟨fuel, h1, (h3 _).mpr ⟨st.1, st.2.1, st.2.2.1, fun _ => st.2.2.2⟩⟩
 
+/-! ### the rewriting variants AS THE DEFAULT (HYBRID) CLI ARM RUNS THEM
+
+`bin/src/main.rs`, hybrid arm: `naive_adf = adf.hybrid_step()` (native object from the PRE-GROUNDED
+residual diagrams), then for `--stmrew` and `--stmrew2` `naive_adf.stable_bdd_representation(&adf)`
+(`adf.rs`): `adf.stable_model_candidates()` on the UN-grounded biodivine object - the `sat_valuations` of
+the rewriting prepared at construction (`--stmrew`: `from_parser_with_stm_rewrite`) or of
+`stable_representation()` (`--stmrew2`) - and the reduct test of `stable` on the pre-grounded native
+store. The two objects do NOT denote the same functions as soon as grounding decides a statement, so
+`native_rewriting_exact` (hypothesis `hsame`) does not apply. -/
+
+/-- `hsame` of `native_rewriting_exact` fails for the pairing the CLI runs: on `s(a). s(b). ac(a,c(v)).
+ac(b,a).` the pre-grounded native handles are `[1, 1]` (both ⊤), the biodivine conditions the tables
+`[15, 10]` (⊤ and `x0`) -/
+theorem hsame_fails_for_the_cli_pairing :
+    let acB := Bio.fromFormulas (Bio.ttLib 2) Bio.exChain2
+    let r := Bio.hybridStep (Bio.ttLib 2) Bio.ttDump2 true acB
+    r.2 = [1, 1] ∧ acB = [15, 10] ∧
+    acB.map (Bio.ttLawful 2).den ≠ r.2.map (eval r.1) := by
+  refine ⟨by decide, by decide, ?_⟩
+  intro h
+  have e : (Bio.hybridStep (Bio.ttLib 2) Bio.ttDump2 true (Bio.fromFormulas (Bio.ttLib 2) Bio.exChain2)).2 = [1, 1] := by
+    decide
+  have e2 : Bio.fromFormulas (Bio.ttLib 2) Bio.exChain2 = [15, 10] := by decide
+  rw [e, e2] at h
+  simp only [List.map_cons, List.map_nil, List.cons.injEq, and_true] at h
+  have := congrFun h.2 (fun _ => false)
+  rw [eval_one] at this
+  revert this
+  show Bio.ttDen 2 10 (fun _ => false) ≠ true
+  decide
+
+/-- **the missing theorem (review 2, item 3): `Adf::stable_bdd_representation(&biodivine)` on the
+hybrid-built object** - native object from `hybrid_step_opt(opt)` (the CLI: `opt = true`), candidates
+from the ORIGINAL biodivine conditions `ac` (`rw = some r`: a prepared rewriting, `--stmrew`; `rw = none`:
+`stable_representation()`, `--stmrew2`), reduct test on the native store: the store stays well formed and
+is only extended, no duplicate, exactly the stable models of the ORIGINAL conditions, `[]` if there is none.
+Assumptions about the external crate: `W`, `hd` (see `C01.hybrid_grounded_is_lfp`); `hg`: the prepared
+rewriting is true at every two-valued model (nothing for `none`). -/
+theorem native_rewriting_on_hybrid {T : Type} (L : Bio.Lib T) (n : Nat) (W : Bio.Lawful L n)
+    (dump : T → List Node) (hd : Bio.DumpSpec W dump) (opt : Bool) (rw : Option T)
+    (ac : List T) (hv : ∀ a ∈ ac, W.Valid a) (hn : ac.length = n) (hg : Bio.GoodRewrite W ac rw) :
+    let r := Bio.hybridStep L dump opt ac
+    let res := Bio.nativeStableRep r.1 n r.2 (Bio.stableModelCandidates L rw ac)
+    let out := res.2.map (fun v => v.map storeIsConst)
+    (WF res.1 ∧ Ext r.1 res.1) ∧ out.Nodup ∧
+    (∀ v : I3, v ∈ out ↔ (v.length = n ∧ Stable (ac.map W.den) v)) ∧
+    ((∀ v : I3, ¬ (v.length = n ∧ Stable (ac.map W.den) v)) → res.2 = []) := by
+  have h := Bio.native_rewriting_on_hybrid W hd opt rw ac hv hn hg
+  exact ⟨h.1, h.2.1, h.2.2, fun hnone => Bio.nil_of_none _ _ _ h.2.2 hnone⟩
+
+/-- `--stmrew2` in the hybrid arm (`from_parser`, no prepared rewriting: the candidates are the models of
+`stable_representation()`): no further hypothesis -/
+theorem hybrid_stmrew2_exact {T : Type} (L : Bio.Lib T) (n : Nat) (W : Bio.Lawful L n)
+    (dump : T → List Node) (hd : Bio.DumpSpec W dump) (opt : Bool)
+    (ac : List T) (hv : ∀ a ∈ ac, W.Valid a) (hn : ac.length = n) :
+    let r := Bio.hybridStep L dump opt ac
+    let res := Bio.nativeStableRep r.1 n r.2 (Bio.stableModelCandidates L none ac)
+    let out := res.2.map (fun v => v.map storeIsConst)
+    out.Nodup ∧ ∀ v : I3, v ∈ out ↔ (v.length = n ∧ Stable (ac.map W.den) v) :=
+  let h := native_rewriting_on_hybrid L n W dump hd opt none ac hv hn trivial
+  ⟨h.2.1, h.2.2.1⟩
+
+/-- `--stmrew` in the hybrid arm (`from_parser_with_stm_rewrite`: conditions `Bio.acOf`, prepared rewriting
+`Bio.stmRewriting` over the conditions OF THE FILE). Hypothesis `hnd`: no statement has two conditions -
+without it the stable model of `s(a).ac(a,c(f)).ac(a,c(v)).` is lost
+(`prepared_rewriting_duplicate_counterexample`; the same candidate list feeds this arm). -/
+theorem hybrid_stmrew_exact {T : Type} (L : Bio.Lib T) (n : Nat) (W : Bio.Lawful L n)
+    (dump : T → List Node) (hd : Bio.DumpSpec W dump) (opt : Bool)
+    (order : List Nat) (fs : List Bio.BExpr) (hf : ∀ φ ∈ fs, φ.closed n = true) (ho : ∀ o ∈ order, o < n)
+    (hl : order.length = fs.length) (hnd : order.Nodup) :
+    let ac := Bio.acOf L n order fs
+    let r := Bio.hybridStep L dump opt ac
+    let res := Bio.nativeStableRep r.1 n r.2 (Bio.stableModelCandidates L (some (Bio.stmRewriting L order fs)) ac)
+    let out := res.2.map (fun v => v.map storeIsConst)
+    out.Nodup ∧ ∀ v : I3, v ∈ out ↔ (v.length = n ∧ Stable (ac.map W.den) v) := by
+  have ⟨a, b, _⟩ := Bio.acOf_spec W n order fs hf
+  have h := native_rewriting_on_hybrid L n W dump hd opt _ _ b a (Bio.stmRewriting_good W order fs hf ho hnd hl)
+  exact ⟨h.2.1, h.2.2.1⟩
+
+/-- both flags from the WRITTEN framework (one condition per statement, declaration order): the printed
+vectors are the stable models of the written conditions -/
+theorem hybrid_rewriting_from_formulas {T : Type} (L : Bio.Lib T) (fms : List Fm) (W : Bio.Lawful L fms.length)
+    (dump : T → List Node) (hd : Bio.DumpSpec W dump) (opt prepared : Bool)
+    (hv : ∀ f ∈ fms, NConc.atomsLt fms.length f) :
+    let acB := Bio.fromFormulas L fms
+    let rw := if prepared then some (Bio.rewritingOfFormulas L fms) else none
+    let r := Bio.hybridStep L dump opt acB
+    let res := Bio.nativeStableRep r.1 fms.length r.2 (Bio.stableModelCandidates L rw acB)
+    let out := res.2.map (fun v => v.map storeIsConst)
+    out.Nodup ∧ ∀ v : I3, v ∈ out ↔ (v.length = fms.length ∧ Stable (fms.map Fm.sem) v) := by
+  intro acB rw
+  have ⟨a, b, c, _⟩ := Bio.fromFormulas_spec fms W hv
+  have hg : Bio.GoodRewrite W (Bio.fromFormulas L fms) rw := by
+    cases prepared with
+    | false => exact trivial
+    | true => exact Bio.rewritingOfFormulas_good fms W hv
+  have h := native_rewriting_on_hybrid L fms.length W dump hd opt rw _ b a hg
+  simp only at h
+  rw [c] at h
+  exact ⟨h.2.1, h.2.2.1⟩
+
+/-- non-vacuity ON THE PAIRING WHERE `hsame` FAILS (`hsame_fails_for_the_cli_pairing`): `s(a). s(b).
+ac(a,c(v)). ac(b,a).`, pre-grounded native object (`opt = true`, both handles ⊤), candidates from the
+un-grounded truth-table conditions, both rewriting variants: the answer is the one stable model `T T` -/
+example (prepared : Bool) :
+    let acB := Bio.fromFormulas (Bio.ttLib 2) Bio.exChain2
+    let rw := if prepared then some (Bio.rewritingOfFormulas (Bio.ttLib 2) Bio.exChain2) else none
+    let r := Bio.hybridStep (Bio.ttLib 2) Bio.ttDump2 true acB
+    let res := Bio.nativeStableRep r.1 2 r.2 (Bio.stableModelCandidates (Bio.ttLib 2) rw acB)
+    [some true, some true] ∈ res.2.map (fun v => v.map storeIsConst) ∧
+    [some true, some false] ∉ res.2.map (fun v => v.map storeIsConst) := by
+  have h := hybrid_rewriting_from_formulas (Bio.ttLib 2) Bio.exChain2 (Bio.ttLawful 2) Bio.ttDump2
+    Bio.ttDump2_spec true prepared Bio.exChain2_ok
+  have t := Bio.tt_stable Bio.exChain2 Bio.exChain2_ok
+  refine ⟨(h.2 _).mpr ((t _).mp (by decide)), fun hin => ?_⟩
+  have := (t _).mpr ((h.2 _).mp hin)
+  revert this; decide
+
+/-- … and on the mutual attack (two stable models, nothing decided by grounding), both flags of
+`hybrid_step_opt`, both rewriting variants -/
+example (opt prepared : Bool) :
+    let acB := Bio.fromFormulas (Bio.ttLib 2) Bio.exMutual
+    let rw := if prepared then some (Bio.rewritingOfFormulas (Bio.ttLib 2) Bio.exMutual) else none
+    let r := Bio.hybridStep (Bio.ttLib 2) Bio.ttDump2 opt acB
+    let res := Bio.nativeStableRep r.1 2 r.2 (Bio.stableModelCandidates (Bio.ttLib 2) rw acB)
+    [some true, some false] ∈ res.2.map (fun v => v.map storeIsConst) ∧
+    [some false, some true] ∈ res.2.map (fun v => v.map storeIsConst) ∧
+    [some true, some true] ∉ res.2.map (fun v => v.map storeIsConst) := by
+  have h := hybrid_rewriting_from_formulas (Bio.ttLib 2) Bio.exMutual (Bio.ttLawful 2) Bio.ttDump2
+    Bio.ttDump2_spec opt prepared Bio.exMutual_ok
+  have t := Bio.tt_stable Bio.exMutual Bio.exMutual_ok
+  refine ⟨(h.2 _).mpr ((t _).mp (by decide)), (h.2 _).mpr ((t _).mp (by decide)), fun hin => ?_⟩
+  have := (t _).mpr ((h.2 _).mp hin)
+  revert this; decide
+
+/-- **"the answer is the empty set, not an error"** (review 2, C03 row 3): the enumeration is a total
+function and, when the framework has no stable model, returns `[]` - native object … -/
+theorem stable_none_then_empty (s : Store) (n : Nat) (ac : List Nat) (hw : WF s) (hn : ac.length = n)
+    (hv : ∀ t ∈ ac, t < s.nodes.size)
+    (hnone : ∀ v : I3, ¬ (v.length = n ∧ Stable (ac.map (eval s)) v)) :
+    (stableAll s n ac).2 = [] ∧ (Cli.stablePre s n ac).2 = [] := by
+  have h1 := stable_exact s n ac hw hn hv
+  have h2 := stablepre_exact s n ac hw hn hv
+  exact ⟨Bio.nil_of_none _ _ _ h1.2 hnone, Bio.nil_of_none _ _ _ h2.2 hnone⟩
+
+/-- … and the hybrid-built object (all searches of the hybrid arm) -/
+theorem hybrid_stable_none_then_empty {T : Type} (L : Bio.Lib T) (n : Nat) (W : Bio.Lawful L n)
+    (dump : T → List Node) (hd : Bio.DumpSpec W dump) (opt useA : Bool) (rw : Option T)
+    (ac : List T) (hv : ∀ a ∈ ac, W.Valid a) (hn : ac.length = n) (hg : Bio.GoodRewrite W ac rw)
+    (hnone : ∀ v : I3, ¬ (v.length = n ∧ Stable (ac.map W.den) v)) :
+    let r := Bio.hybridStep L dump opt ac
+    (stableAll r.1 n r.2).2 = [] ∧ (Cli.stablePre r.1 n r.2).2 = [] ∧ (countAll r.1 n r.2 useA).2 = [] ∧
+    (Bio.nativeStableRep r.1 n r.2 (Bio.stableModelCandidates L rw ac)).2 = [] := by
+  intro r
+  have h1 := hybrid_stable_exact L n W dump hd opt ac hv hn
+  have h2 := hybrid_count_search_exact L n W dump hd opt useA ac hv hn
+  have h3 := native_rewriting_on_hybrid L n W dump hd opt rw ac hv hn hg
+  have e1 : (stableAll r.1 n r.2).2 = [] := Bio.nil_of_none _ _ _ h1.2.1 hnone
+  exact ⟨e1, by rw [h1.2.2]; exact e1, Bio.nil_of_none _ _ _ h2.2 hnone, h3.2.2.2 hnone⟩
+
+/-- non-vacuity: `s(a). ac(a, neg(a)).` has no stable model; the native enumeration on the compiled
+framework answers `[]` (through the theorem; `Stable` refuted on both total candidates) -/
+example : (stableAll (buildNative 1 [Fm.not (.atom 0)]).1 1 (buildNative 1 [Fm.not (.atom 0)]).2).2 = [] := by
+  obtain ⟨w, hl, hlt, hf⟩ := buildNative_fns [Fm.not (.atom 0)] (by simp [VBOT])
+    (fun f hf => by simp at hf; subst hf; simp [Fm.atomsOK, VBOT])
+  refine (stable_none_then_empty _ 1 _ w hl hlt ?_).1
+  rw [hf]
+  rintro v ⟨hlen, ht, hg, _⟩
+  match v, hlen with
+  | [x], _ =>
+    have h0 := ht 0 (by simp)
+    cases x with
+    | none => simp at h0
+    | some b =>
+      have : Gam [Fm.sem (Fm.not (.atom 0))] [some b] = [some (!b)] := by
+        cases b <;> simp [Gam, constOf_some, Fm.sem, over, upd]
+      simp only [List.map_cons, List.map_nil] at hg
+      rw [this] at hg
+      cases b <;> simp at hg
+
 end C03
+
+#print axioms C03.native_rewriting_on_hybrid
+#print axioms C03.hybrid_stmrew_exact
+#print axioms C03.hybrid_rewriting_from_formulas
+
 
